@@ -543,8 +543,7 @@ func FuzzFromJSON(f *testing.F) {
 		c.Cont = opsFromBytes(kind, cont, n)
 		c.In = data
 		c.Show = fmt.Sprintf("%q", data)
-		if _, err := check(c); err != nil {
-			p := pbt.SaveFuzzFailure("C12", "fuzz", c, err)
+		if p, err := pbt.FuzzCase("C12", "fuzz", c, check); err != nil {
 			t.Fatalf("violation: replay=%s %v", p, err)
 		}
 	})
